@@ -158,6 +158,46 @@ pub fn run(ctx: &Ctx) {
             }
         }
     }
+    // ---- header-rewrite clause: an authenticated blob relabelled to another version or kind fails to unwrap
+    if replay_filter.is_none() {
+        let bs = crate::lab::backends();
+        let kname = |b: &crate::lab::Backend| match b.ver { "v1" => "k1", "v2" => "k2", "v3" => "k3", _ => "k4" };
+        let n_blobs = if ctx.thorough() { 64 } else { 16 };
+        for b in &bs {
+            let keys = crate::c05::keys_for(b, &mut g);
+            for (kind, key, _) in keys.wrappable.iter().filter(|k| k.1.len() <= 64).take(2) {
+                for i in 0..n_blobs {
+                    let wk = g.bytes(32);
+                    let pass = b"pw".to_vec();
+                    let pie = (b.pie_wrap)(kind, &wk, key).ok();
+                    let pw = if i < 4 { let p = crate::c05::cheap_params(b, &mut g); (b.pw_wrap)(kind, &pass, Some(&p), key).ok() } else { None };
+                    for ob in &bs {
+                        for okind in ["local", "secret"] {
+                            if ob.ver == b.ver && okind == *kind {
+                                continue;
+                            }
+                            for (op, text, secret) in [("pie", &pie, &wk), ("pbkw", &pw, &pass)] {
+                                let text = match text { Some(t) => t, None => continue };
+                                let data = &text[text.rfind('.').unwrap() + 1..];
+                                let relabelled = if op == "pie" { format!("{}.{okind}-wrap.pie.{data}", kname(ob)) } else { format!("{}.{okind}-pw.{data}", kname(ob)) };
+                                // PBKW parameter layouts differ between the families: only within a family (cost stays the cheap one)
+                                if op == "pbkw" && ob.pw_param_len != b.pw_param_len {
+                                    continue;
+                                }
+                                rep.evaluations += 1;
+                                let r = if op == "pie" { (ob.pie_unwrap)(okind, secret, &relabelled) } else { (ob.pw_unwrap)(okind, secret, &relabelled) };
+                                if let Ok(k) = r {
+                                    rep.violation("relabel.accepted", format!("a {} {kind} {op} blob relabelled as {} {okind} unwraps on {} (returned a {}-byte key)", b.name, kname(ob), ob.name, k.len()),
+                                                  json!({"op": "relabel", "parser_backend": ob.name, "parser_kind": format!("{op}.{okind}"), "input_hex": hex::encode(&relabelled), "secret": hex::encode(secret)}));
+                                }
+                                rep.nontrivial(format!("relabel|{}|{op}|{kind}>{}|{okind}", b.name, ob.name));
+                            }
+                        }
+                    }
+                }
+            }
+        }
+    }
     rep.exhaustive = true;
     rep.notes.push("exhaustive over the (producer kind, parser kind) pairs; sampled over data".into());
     rep.finish(ctx.out.as_deref());
